@@ -88,7 +88,7 @@ class Contract:
 
     @property
     def short(self):
-        return self.qual.split("::")[-1]
+        return self.qual.split("::")[-1] + ("#" + self.opts["variant"] if self.opts.get("variant") else "")
 
 
 class Spec:
@@ -170,7 +170,8 @@ class Spec:
                 c = Contract(qual, func, node_of(func), tags, path, "repo", opts)
                 c.ns = ns
                 _locals(c)
-                spec.contracts[qual] = c
+                key = qual if not opts.get("variant") else "%s#%s" % (qual, opts["variant"])
+                spec.contracts[key] = c
                 return func
 
             return deco
@@ -221,6 +222,11 @@ class Spec:
         def ground_numbers(key):
             return PyVal("list", items=[bm.const_value(frac(x)) for x in spec.ground[key]])
 
+        def bands(last, *bs):
+            """a module-level price ladder modelled by its increment bands [(lo, hi, step), ...] plus the last tick;
+            the model is ground-checked against the real constant on every run (extra_c17.py)"""
+            return PyVal("bands", bands=[(frac(a), frac(b), frac(s)) for a, b, s in bs], last=frac(last))
+
         def ghost_list(key, ident):
             """a module-level constant list held as a heap list at a fixed negative reference; its length, every element and
             (ground-checked) strict monotonicity are assumed facts"""
@@ -236,7 +242,7 @@ class Spec:
             REAL=REAL, MONEY=MONEY, INT=INT, BOOL=BOOL, ATOM=ATOM, CHARS=CHARS, NONE=NONE, Ref=Ref, Opt=Opt, Tup=Tup, ListOf=ListOf, MapOf=MapOf,
             schema=schema, struct=struct, record=record, module_var=module_var, const=const, inline=inline, lock=lock,
             abstract_bool=abstract_bool, class_tag=class_tag, contract=contract, virtual=virtual, external=external, lemma=lemma,
-            abstract_property=abstract_property, dispatch=dispatch, MapOfDefault=MapOfDefault, grid=grid, ground_numbers=ground_numbers, ghost_list=ghost_list, charset=charset, clock=clock, Fraction=Fraction_,
+            abstract_property=abstract_property, dispatch=dispatch, MapOfDefault=MapOfDefault, grid=grid, ground_numbers=ground_numbers, ghost_list=ghost_list, bands=bands, charset=charset, clock=clock, Fraction=Fraction_,
         )
         # clause names must exist so that decorated bodies compile (they are never run)
         for k in CLAUSES:
@@ -291,7 +297,27 @@ class Spec:
     def virtual_member(self, cls, attr):
         return self.virtuals.get((cls, attr))
 
-    def contract_for(self, qual):
+    def contract_for(self, qual, args=None, repo=None):
+        """the contract used at a call site; when a function has several instantiations (variant=...), the one whose
+        declared Ref parameter classes fit the static classes of the arguments"""
+        variants = [c for k, c in self.contracts.items() if k.startswith(qual + "#")]
+        if variants and args is not None and repo is not None:
+            best = None
+            for c in variants + ([self.contracts[qual]] if qual in self.contracts else []):
+                names = [a.arg for a in c.node.args.args]
+                ok = True
+                score = 0
+                for nm, v in zip(names, args):
+                    s = c.param_sorts.get(nm)
+                    if isinstance(s, Ref) and isinstance(v, SV) and isinstance(v.sort, Ref):
+                        if repo.is_subclass(v.sort.cls, s.cls):
+                            score += len(repo.mro(s.cls))
+                        else:
+                            ok = False
+                if ok and (best is None or score > best[0]):
+                    best = (score, c)
+            if best is not None:
+                return best[1]
         return self.contracts.get(qual)
 
     def may_inline(self, qual):
